@@ -16,23 +16,26 @@ SKIP_ADTS = {"rand_jitter::error::TimerError"}
 EQ_EXCEPTIONS = {"rand_hc::hc128::Hc128Rng": {"results": "buffered words are determined by core (invertible table update) and index"}}
 
 
-def expected_eq(ev, st, tyid, a, b, skip):
-    """conjunction of whole-leaf equalities following the type structure"""
+def expected_eq(ev, st, tyid, a, b, skip, elementwise=False):
+    """conjunction of whole-leaf equalities following the type structure (large arrays as one array-equality atom, or, with
+    `elementwise`, element by element: `a.iter().zip(b).all(|(x, y)| x == y)` is the same comparison)"""
     t = ev.tys[tyid]
     if t["k"] == "adt" and t["adt_kind"] == "struct":
         fs = t["variants"][0]["fields"]
         if len(fs) == 1:
             if fs[0]["name"] in skip:
                 return T.TRUE
-            return expected_eq(ev, st, fs[0]["ty"], a, b, skip)
+            return expected_eq(ev, st, fs[0]["ty"], a, b, skip, elementwise)
         parts = []
         for i, f in enumerate(fs):
             if f["name"] in skip:
                 continue
-            parts.append(expected_eq(ev, st, f["ty"], a.fields[i], b.fields[i], skip))
+            parts.append(expected_eq(ev, st, f["ty"], a.fields[i], b.fields[i], skip, elementwise))
         return T.and1(parts)
     if t["k"] == "tuple":
-        return T.and1([expected_eq(ev, st, e, a.fields[i], b.fields[i], skip) for i, e in enumerate(t["elems"])])
+        return T.and1([expected_eq(ev, st, e, a.fields[i], b.fields[i], skip, elementwise) for i, e in enumerate(t["elems"])])
+    if elementwise and isinstance(a, ArrV) and isinstance(b, ArrV) and a.n == b.n:
+        return T.and1([P.eq_values(ev, st, a.get(i), b.get(i)) for i in range(a.n)])
     return P.eq_values(ev, st, a, b)
 
 
@@ -84,13 +87,13 @@ def check_impl(chk, crate, im):
             return
         skip = set()
         exp = expected_eq(ev, st, tyid, va, vb, skip)
-        ok = r is exp
+        ok = r is exp or r is expected_eq(ev, st, tyid, va, vb, skip, True)
         if not ok and (adt in EQ_EXCEPTIONS or wraps_block_rng(ev, tyid)):
             # a buffered generator may leave out the result buffer, and only that: the buffered words are a function of the core
             # (its block function is invertible) and the read position, which must both be compared
             skip = {"results"}
             exp = expected_eq(ev, st, tyid, va, vb, skip)
-            ok = r is exp
+            ok = r is exp or r is expected_eq(ev, st, tyid, va, vb, skip, True)
         detail = ""
         if not ok:
             missing = []
